@@ -22,7 +22,7 @@ ANCHORS = ["MPRenderer.draw_scenario", "MPRenderer.draw_dynamic_obstacle", "MPRe
            "MPRenderer.draw_phantom_obstacle", "MPRenderer.draw_environment_obstacle", "MPRenderer._draw_occupancy",
            "MPRenderer.draw_lanelet_network", "MPRenderer.draw_planning_problem_set", "MPRenderer.render",
            "BaseParam.__setattr__", "MPRenderer.draw_trajectory", "MPRenderer.draw_goal_region"]
-REQUIRED = ["totality.draw", "totality.render", "totality.rasterised", "types.icon", "types.shape", "flag.traffic_light.show_label", "renderer.plot-limits", "renderer.focus-obstacle", "renderer.lanelets-in-view-required", "exactness.checked", "exactness.dynamic-trajectory",
+REQUIRED = ["totality.draw", "totality.render", "totality.rasterised", "types.icon", "types.shape", "flag.traffic_light.show_label", "totality.all-boolean-parameters-sampled", "renderer.plot-limits", "renderer.focus-obstacle", "renderer.lanelets-in-view-required", "exactness.checked", "exactness.dynamic-trajectory",
             "exactness.dynamic-set", "exactness.static", "exactness.phantom", "exactness.environment",
             "exactness.window-before-horizon", "exactness.window-after-horizon", "exactness.no-occupancy-at-begin",
             "lanelets.all", "lanelets.subset", "lanelets.empty-list", "propagation.root", "propagation.nested",
@@ -141,6 +141,25 @@ def run(ctx):
                                                      else [None])
         if P.planning_problem_set.draw_ids is not None:
             ctx.feature("pp.draw_ids")
+        if i % 2 == 1:
+            # "every draw-parameter setting": every boolean parameter of every nested group may deviate from its default
+            import dataclasses as _dc
+
+            def _walk(g, path=""):
+                for f_ in _dc.fields(g):
+                    v_ = getattr(g, f_.name)
+                    if isinstance(v_, BaseParam):
+                        yield from _walk(v_, path + f_.name + ".")
+                    elif isinstance(v_, bool) and not f_.name.startswith("_") and f_.name != "antialiased":
+                        yield g, f_.name, path + f_.name
+            flipped = []
+            for g_, n_, full in list(_walk(P)):
+                if full in flags or rng.random() >= 0.25:
+                    continue
+                setattr(g_, n_, not getattr(g_, n_))
+                flipped.append(full)
+            setting["flipped"] = flipped
+            ctx.feature("totality.all-boolean-parameters-sampled")
         setting["flags"] = flags
         setting["lanelet_draw_ids"] = P.lanelet_network.draw_ids
         unc = any(not isinstance(o.initial_state.position, np.ndarray) for o in sc.static_obstacles + sc.dynamic_obstacles)
